@@ -4,7 +4,8 @@ import gens
 
 TRUSTED_BASE = [
     "Coq 8.16.1 kernel (coqc); no axioms",
-    "hand-written model coq/Model/Parse.v, Url.v of yarl/_parse.py, _url.py: validated by the correspondence suites",
+    "hand-written model coq/Model/Parse.v, Url.v of yarl/_parse.py, _url.py: validated by the correspondence suites; unsplit_result is "
+    "additionally re-translated from the source on every run (harness/gen_model.py, fail closed) and proved equal to the model",
     "oracles: unicodedata NFKC, ipaddress, idna (real libraries consulted by the extracted model)",
     "extraction (ExtrOcamlBasic only), ocaml/driver*.ml, harness",
 ]
